@@ -1701,6 +1701,7 @@ fn drive_run(r: &mut StdRng, t: &mut Trace, fl: &str, regime: &str, len: usize) 
         let Some(mut op) = op else { break };
         denone(&mut op, &sys);
         time_passes(&sys.e, r, 3000);
+        time_passes_long(&sys.e, r);
         let ev = sys.step(&op);
         sh.apply(&op, &ev);
         // phases: grow until additions have been refused a few times, shrink for a while, grow again
